@@ -10,6 +10,7 @@ package main
 // parameters with nil or constants joined by !, && and ||.
 
 import (
+	"go/constant"
 	"go/token"
 
 	"golang.org/x/tools/go/ssa"
@@ -156,4 +157,102 @@ func impliesNilCollector(cond ssa.Value, coll ssa.Value) bool {
 func impliesCollector(cond ssa.Value, coll ssa.Value) bool {
 	t, used := collTruth(cond, coll, true, nil, 0)
 	return used && t == triFalse
+}
+
+// predTruth evaluates a call of a named test (purePredicate) in three-valued
+// logic: the callee's branches are followed with its conditions rebuilt over
+// the caller's values and judged by atom (which knows what the rule assumes on
+// the path being walked); both branches are taken where atom does not know.
+// The answer is a truth only when every return reached agrees.
+func predTruth(c *ssa.Call, atom func(ssa.Value) tri, depth int) tri {
+	if c == nil || c.Call.IsInvoke() || depth > 3 {
+		return triUnknown
+	}
+	h := c.Call.StaticCallee()
+	if h == nil || !inModule(h) || !purePredicate(h) || len(h.Blocks) == 0 {
+		return triUnknown
+	}
+	var evalV func(v ssa.Value, env map[*ssa.Phi]tri) tri
+	evalV = func(v ssa.Value, env map[*ssa.Phi]tri) tri {
+		switch x := v.(type) {
+		case *ssa.Const:
+			if x.Value != nil && x.Value.Kind() == constant.Bool {
+				return triOf(constant.BoolVal(x.Value))
+			}
+			return triUnknown
+		case *ssa.Phi:
+			if t, ok := env[x]; ok {
+				return t
+			}
+			return triUnknown
+		case *ssa.UnOp:
+			if x.Op == token.NOT {
+				return evalV(x.X, env).not()
+			}
+		}
+		sv := substInto(c, h, v, 0)
+		if sv == nil {
+			return triUnknown
+		}
+		if t := atom(sv); t != triUnknown {
+			return t
+		}
+		if sc, ok := sv.(*ssa.Call); ok && sc != c {
+			return predTruth(sc, atom, depth+1)
+		}
+		return triUnknown
+	}
+	result, any := triUnknown, false
+	mixed := false
+	budget := 200
+	var walk func(b, from *ssa.BasicBlock, env map[*ssa.Phi]tri)
+	walk = func(b, from *ssa.BasicBlock, env map[*ssa.Phi]tri) {
+		if budget <= 0 {
+			mixed = true
+			return
+		}
+		budget--
+		nenv := make(map[*ssa.Phi]tri, len(env)+2)
+		for k, v := range env {
+			nenv[k] = v
+		}
+		for _, ins := range b.Instrs {
+			ph, ok := ins.(*ssa.Phi)
+			if !ok {
+				break
+			}
+			for i, pr := range b.Preds {
+				if pr == from {
+					nenv[ph] = evalV(ph.Edges[i], env)
+				}
+			}
+		}
+		switch x := b.Instrs[len(b.Instrs)-1].(type) {
+		case *ssa.Return:
+			t := evalV(x.Results[0], nenv)
+			if t == triUnknown || (any && t != result) {
+				mixed = true
+			}
+			result, any = t, true
+		case *ssa.If:
+			switch evalV(x.Cond, nenv) {
+			case triTrue:
+				walk(b.Succs[0], b, nenv)
+			case triFalse:
+				walk(b.Succs[1], b, nenv)
+			default:
+				walk(b.Succs[0], b, nenv)
+				walk(b.Succs[1], b, nenv)
+			}
+		case *ssa.Jump:
+			walk(b.Succs[0], b, nenv)
+		default:
+			mixed = true
+		}
+	}
+	walk(h.Blocks[0], nil, map[*ssa.Phi]tri{})
+	if mixed || !any {
+		return triUnknown
+	}
+	return result
 }
